@@ -1,4 +1,4 @@
-From V Require Import Common.Base C11.Str C11.EsbuildResolve C11.NodeSpec C11.SortLemmas C11.Scope C11.ResolveProofs C11.Walk C11.NodeWalkSpec C11.WalkProofs.
+From V Require Import Common.Base C11.Str C11.EsbuildResolve C11.NodeSpec C11.SortLemmas C11.Scope C11.ResolveProofs C11.Walk C11.NodeWalkSpec C11.WalkProofs C11.CondsExt C11.WalkCore C11.WalkMain.
 Local Open Scope string_scope.
 (* non-vacuity: concrete non-trivial values meeting each theorem's hypotheses *)
 Example name_ex : parse_package_name (s_ "@scope/pkg/lib/a.js") = Some (s_ "@scope/pkg", s_ "./lib/a.js").
@@ -115,3 +115,44 @@ Example ex_fs_bare :
   /\ require_resolve (fun _ => false) ex_fs [] (p_ ["src"]) (s_ "dep/features/a")
   = NFile (p_ ["node_modules"; "dep"; "src"; "features"; "a.js"]).
 Proof. split; vm_compute; reflexivity. Qed.
+
+(* the detectors of the three object shapes fire on their witnesses, at the exact object *)
+Example witness_object_shapes :
+  (shape_dup_key [(s_ "./a", JStr (s_ "./x.js")); (s_ "./a", JStr (s_ "./y.js"))]
+   && negb (shape_mixed_keys [(s_ "./a", JStr (s_ "./x.js")); (s_ "./a", JStr (s_ "./y.js"))])
+   && negb (shape_index_key [(s_ "./a", JStr (s_ "./x.js")); (s_ "./a", JStr (s_ "./y.js"))])
+   && shape_mixed_keys [(s_ "node", JStr (s_ "./x.js")); (s_ "./b", JStr (s_ "./y.js"))]
+   && negb (shape_dup_key [(s_ "node", JStr (s_ "./x.js")); (s_ "./b", JStr (s_ "./y.js"))])
+   && negb (shape_index_key [(s_ "node", JStr (s_ "./x.js")); (s_ "./b", JStr (s_ "./y.js"))])
+   && shape_index_key [(s_ "0", JStr (s_ "./x.js")); (s_ "default", JStr (s_ "./y.js"))]
+   && negb (shape_dup_key [(s_ "0", JStr (s_ "./x.js")); (s_ "default", JStr (s_ "./y.js"))])
+   && negb (shape_mixed_keys [(s_ "0", JStr (s_ "./x.js")); (s_ "default", JStr (s_ "./y.js"))])) = true.
+Proof. vm_compute. reflexivity. Qed.
+
+(* package_resolve_eq_partial: its hypotheses hold on the example tree for a bare specifier *)
+Example ex_fs_bare_hyps :
+  wf_fsb ex_fs = true /\ no_tsb ex_fs = true /\ no_case_collision ex_fs = true
+  /\ bare_ok (s_ "dep/features/a") = true /\ is_package_path (s_ "dep/features/a") = true
+  /\ nearest_crosses_nm ex_fs 1 (p_ ["src"]) = false
+  /\ in_scope_exports ex_exports (subpath_of (s_ "dep/features/a")) = true.
+Proof. repeat split; vm_compute; reflexivity. Qed.
+Example ex_fs_pkgs_ok : pkgs_ok ex_fs (s_ "dep/features/a").
+Proof.
+  intros d pk ex Hd He. unfold pkg_of in Hd. cbn [ex_fs lookup] in Hd.
+  repeat match type of Hd with
+         | context [if path_eqb ?a d then _ else _] => destruct (path_eqb a d)
+         end; try discriminate; injection Hd as <-; cbn in He; try discriminate;
+    injection He as <-; split; [discriminate | vm_compute; reflexivity].
+Qed.
+(* the D12 witness violates exactly the scope hypothesis *)
+Example ex_scope_shape :
+  nearest_crosses_nm w_scope_fs 2 (pw_ ["node_modules"; "nopkg"]) = true
+  /\ bare_ok (s_ "rootpkg") = true /\ no_case_collision w_scope_fs = true.
+Proof. exact scope_witness_shape. Qed.
+(* ES-module entry: no extension search, legacy main *)
+Example ex_fs_import :
+  import_resolve (fun _ => false) ex_fs [] (p_ ["src"]) (s_ "./util") = NNotFound
+  /\ import_resolve (fun _ => false) ex_fs [] (p_ ["src"]) (s_ "./util.js") = NFile (p_ ["src"; "util.js"])
+  /\ import_resolve (fun _ => false) ex_fs [] (p_ ["src"]) (s_ "dep/features/a")
+     = NFile (p_ ["node_modules"; "dep"; "src"; "features"; "a.js"]).
+Proof. repeat split; vm_compute; reflexivity. Qed.
